@@ -130,6 +130,12 @@ type Case struct {
 	// harness declares so through the model API (SetSatisfiesTriangleInequality(true) — no JSON equivalent): the engine then
 	// skips the latest-start / latest-end exact checks
 	ClaimMetric bool `json:"claim_metric,omitempty"`
+	// DGScript: the members of a duration group (each waits for its window behind the one before it) and a stop that must
+	// start soon after the last member is done; planned in this order at the start of a histw history
+	DGScript []int `json:"dg_script,omitempty"`
+	// InitUnplan: a stop of a unit that came as initial stops in an order other than that of its stops' indices; the
+	// history un-plans that unit first
+	InitUnplan []int `json:"init_unplan,omitempty"`
 }
 
 type CSolve struct {
@@ -164,6 +170,8 @@ type Profile struct {
 	ForceWindows                                                                    bool // windows, wait limits and a non-metric matrix always on
 	ForceUnordered                                                                  bool // at least one multi-stop unit with several allowed orders
 	SoftCap                                                                         bool // capacities as objective terms (constraint off)
+	ForceDurGroups                                                                  bool // a duration group with a long duration whose members wait for a late window
+	InitialUnordered                                                                bool // an unordered multi-stop unit as initial stops, not in index order, interleaved
 }
 
 func fullProfile(maxStops, maxVeh int) Profile {
@@ -481,6 +489,24 @@ func genCase(rng *rand.Rand, p Profile) *Case {
 			if rng.Intn(3) == 0 {
 				a.Custom = map[string]any{"alt": k}
 			}
+			if useCap && rng.Intn(2) == 0 {
+				// alternates that load or unload something (one model stop per vehicle that lists the alternate: each of the
+				// copies has to carry the quantity)
+				a.Qty = map[string]int{}
+				for _, r := range resources {
+					if rng.Intn(3) != 0 {
+						a.Qty[r] = -(1 + rng.Intn(6))
+						if rng.Intn(4) == 0 {
+							a.Qty[r] = 1 + rng.Intn(3)
+						}
+					}
+				}
+				if len(a.Qty) == 0 {
+					a.Qty = nil
+				} else {
+					c.feature("alternates-with-quantity")
+				}
+			}
 			c.Alts = append(c.Alts, a)
 		}
 	}
@@ -600,11 +626,45 @@ func genCase(rng *rand.Rand, p Profile) *Case {
 	} else {
 		c.Dur = genMatrix(rng, m, 30, 600, nonMetric)
 	}
-	if on(p.DurGroups, 4) && n >= 3 {
+	if (on(p.DurGroups, 4) || p.ForceDurGroups) && n >= 3 {
 		c.feature("duration_groups")
 		perm := rng.Perm(n)
 		k := 2 + rng.Intn(2)
-		c.DurGroups = append(c.DurGroups, CDurGroup{Stops: append([]int(nil), perm[:k]...), Dur: 60 * (1 + rng.Intn(10))})
+		g := CDurGroup{Stops: append([]int(nil), perm[:k]...), Dur: 60 * (1 + rng.Intn(10))}
+		if p.ForceDurGroups {
+			// a long shared duration, and members whose window opens late: a member that is reached early WAITS — put a
+			// stranger in front of it and it starts when it started before, pays the group's duration itself and ends later
+			g.Dur = 60 * (8 + rng.Intn(15))
+			open := baseTime + int64(40+rng.Intn(60))*60
+			lastOpen := open
+			for _, m := range g.Stops {
+				if rng.Intn(5) != 0 {
+					c.Stops[m].Windows = [][2]int64{{open, open + int64(30+rng.Intn(90))*60}}
+					c.Stops[m].MaxWait = nil
+				}
+				// the next member opens after the one before it is done: reached from it, it waits
+				lastOpen = open
+				open += int64(g.Dur) + int64(15+rng.Intn(30))*60
+			}
+			// and a stop that can only start after the last member has opened and must start soon after it is done: reachable
+			// when that member ends without paying the group's duration, too late when it pays it
+			lastM := g.Stops[len(g.Stops)-1]
+			for i := range c.Stops {
+				inG := false
+				for _, m := range g.Stops {
+					inG = inG || m == i
+				}
+				if !inG {
+					c.Stops[i].Windows = [][2]int64{{lastOpen, lastOpen + int64(c.Stops[lastM].Duration) + 60*int64(5+rng.Intn(g.Dur/60+5))}}
+					c.Stops[i].MaxWait = nil
+					// the history first plans the members and this stop one behind the other (see hist.go)
+					c.DGScript = append(append([]int(nil), g.Stops...), i)
+					break
+				}
+			}
+			c.feature("duration-group-members-wait")
+		}
+		c.DurGroups = append(c.DurGroups, g)
 	}
 	// arrival-neutral detours: a zero-duration stop x that can be visited between a and b without changing
 	// the arrival at b (the branch where the wait estimates stop walking the route early)
@@ -733,11 +793,59 @@ func genCase(rng *rand.Rand, p Profile) *Case {
 	}
 	// initial stops: a feasible-looking prefix assignment that respects units (unit members together,
 	// in precedence order); sometimes fixed
-	if on(p.Initial, 4) {
+	if p.InitialUnordered {
+		// a multi-stop unit whose precedence leaves its order open comes as initial stops in an allowed order that is NOT the
+		// order of its stops' indices, with a foreign stop between its stops (B X A C for A, B before C); the history
+		// un-plans it first (see hist.go)
+		units := c.unitsOfStops()
+		var multi, single []int
+		for _, u := range units {
+			direct := false
+			for _, s := range u {
+				for _, pr := range c.Stops[s].Precedes {
+					direct = direct || pr.Direct
+				}
+			}
+			if c.inGroup(u) || direct {
+				continue
+			}
+			if len(u) >= 3 && multi == nil {
+				multi = u
+			}
+			if len(u) == 1 && single == nil {
+				single = u
+			}
+		}
+		if multi != nil && single != nil {
+			for try := 0; try < 8; try++ {
+				su := append([]int(nil), multi...)
+				rng.Shuffle(len(su), func(i, j int) { su[i], su[j] = su[j], su[i] })
+				seq := c.topo(su)
+				sorted := true
+				for i := 1; i < len(seq); i++ {
+					sorted = sorted && seq[i-1] < seq[i]
+				}
+				if sorted && try < 7 {
+					continue
+				}
+				c.feature("initial")
+				c.feature("initial-interleaved")
+				for i, s := range seq {
+					c.Vehicles[0].Initial = append(c.Vehicles[0].Initial, CInitial{Stop: s})
+					if i == 0 {
+						c.Vehicles[0].Initial = append(c.Vehicles[0].Initial, CInitial{Stop: single[0]})
+					}
+				}
+				c.InitUnplan = []int{seq[0]}
+				break
+			}
+		}
+	} else if on(p.Initial, 4) {
 		c.feature("initial")
 		units := c.unitsOfStops()
 		used := 0
 		order := rng.Perm(len(units))
+		seqs := map[int][][]CInitial{} // per vehicle: the units' stop sequences
 		for _, ui := range order {
 			if used >= 3 || rng.Intn(2) == 0 {
 				continue
@@ -751,10 +859,48 @@ func genCase(rng *rand.Rand, p Profile) *Case {
 			if fixed {
 				c.feature("fixed")
 			}
-			for _, s := range c.topo(u) {
-				c.Vehicles[v].Initial = append(c.Vehicles[v].Initial, CInitial{Stop: s, Fixed: fixed})
+			// any order the unit's precedence allows, not only the one that follows the stops' indices
+			su := append([]int(nil), u...)
+			rng.Shuffle(len(su), func(i, j int) { su[i], su[j] = su[j], su[i] })
+			var seq []CInitial
+			for _, s := range c.topo(su) {
+				seq = append(seq, CInitial{Stop: s, Fixed: fixed})
 			}
+			seqs[v] = append(seqs[v], seq)
 			used++
+		}
+		for v := 0; v < nv; v++ {
+			ss := seqs[v]
+			direct := false
+			for _, seq := range ss {
+				for _, in := range seq {
+					for _, pr := range c.Stops[in.Stop].Precedes {
+						direct = direct || pr.Direct
+					}
+				}
+			}
+			if len(ss) >= 2 && !direct && rng.Intn(2) == 0 {
+				// the units' stops interleaved (each unit keeps its own order): B X A C for a unit {A, B} before C and a stop X
+				c.feature("initial-interleaved")
+				for {
+					var live []int
+					for i, seq := range ss {
+						if len(seq) > 0 {
+							live = append(live, i)
+						}
+					}
+					if len(live) == 0 {
+						break
+					}
+					k := live[rng.Intn(len(live))]
+					c.Vehicles[v].Initial = append(c.Vehicles[v].Initial, ss[k][0])
+					ss[k] = ss[k][1:]
+				}
+			} else {
+				for _, seq := range ss {
+					c.Vehicles[v].Initial = append(c.Vehicles[v].Initial, seq...)
+				}
+			}
 		}
 		// a whole stop group as initial stops of one vehicle, its member units one after the other, each member fixed or
 		// not on its own (the repair of an infeasible initial route must treat the group as one unit)
